@@ -505,10 +505,19 @@ class Ctx(BaseCtx):
                 if (lo is None or v >= lo) and (hi is None or v <= hi) and self.branch(x.t == v):
                     return v
             raise _AbortBound()
-        for v in range(lo, hi):
-            if self.branch(x.t == v):
-                return v
-        return hi
+        if hi - lo <= 8:
+            for v in range(lo, hi):
+                if self.branch(x.t == v):
+                    return v
+            return hi
+        # larger ranges: deterministic binary search (log2 decisions instead of one per value)
+        while lo < hi:
+            mid = (lo + hi) // 2
+            if self.branch(x.t <= mid):
+                hi = mid
+            else:
+                lo = mid + 1
+        return lo
 
     # verdict ----------------------------------------------------------------------------------
     def model_dict(self, m) -> Dict[str, int]:
